@@ -1,5 +1,4 @@
 import collections
-import math
 from abc import ABC, abstractmethod
 from collections.abc import Iterable, Mapping, Sequence
 from enum import Enum, EnumMeta, Flag
@@ -297,8 +296,12 @@ def flag_exact_value_dumper(data):
     return data.value
 
 
+def _is_single_bit(value: int) -> bool:
+    return value > 0 and value & (value - 1) == 0
+
+
 def _extract_non_compound_cases_from_flag(enum: type[FlagT]) -> Sequence[FlagT]:
-    return [case for case in enum.__members__.values() if not math.log2(case.value) % 1]
+    return [case for case in enum.__members__.values() if _is_single_bit(case.value)]
 
 
 class FlagByListProvider(BaseFlagProvider):
